@@ -1275,8 +1275,8 @@ theorem WCtx.finishBatch_fs (c : WCtx) (batch : List WReq) (tail : Option WReq) 
     (c.finishBatch batch tail ok).fs = c.fs := by
   unfold WCtx.finishBatch
   cases tail with
-  | none => simp [WCtx.toRecv_fs, foldl_emit_fs]
-  | some r => simp [WCtx.nonFlush_fs, foldl_emit_fs]
+  | none => simp [WCtx.nonFlush_fs, foldl_emit_fs]
+  | some r => cases r <;> simp [WCtx.nonFlush_fs, foldl_emit_fs]
 
 theorem WCtx.startSync_fs (c : WCtx) (batch : List WReq) (tail : Option WReq) :
     (c.startSync batch tail).fs = c.fs := by
@@ -1577,8 +1577,8 @@ theorem WCtx.finishBatch_alive (c : WCtx) (batch : List WReq) (tail : Option WRe
     (h : c.w.senderAlive = true) : (c.finishBatch batch tail ok).w.Alive := by
   unfold WCtx.finishBatch
   cases tail with
-  | none => exact WCtx.toRecv_alive _ (by simp [foldl_emit_w, h])
-  | some r => exact WCtx.nonFlush_alive _ r (by simp [foldl_emit_w, h])
+  | none => exact WCtx.nonFlush_alive _ _ (by simp [foldl_emit_w, h])
+  | some r => cases r <;> exact WCtx.nonFlush_alive _ _ (by simp [foldl_emit_w, h])
 
 theorem WCtx.startSync_alive (c : WCtx) (batch : List WReq) (tail : Option WReq)
     (h : c.w.senderAlive = true) : (c.startSync batch tail).w.Alive := by
